@@ -12,7 +12,7 @@ RULE = ('cases = 15 built-in forms x per-form parameter lattice (negative, zero,
         'x 4 routes {potentialfunctions.f(r, p..), potentialforms.f(p..)(r), "as.NAME p.." in [Pair], as.NAME(r, p..) inside a '
         '[Potential-Form] formula (literal and positionally bound arguments)}; every lattice point evaluated; non-trivial = '
         'parameter vector with pairwise distinct non-zero components (so a swapped binding changes the value)')
-RULE += "; polynomial orders 0..14; -1 / -2 parameter pairs; number spellings (25e-1, +1.5, .5, 5.); five spellings of as.NAME( inside formulas (blank before the bracket, upper case, bracket on a continuation line); a fifth route: as.NAME in [Pair] of a file that also defines the user's own form with the bare name NAME; integer-typed separations; the potential functions called with keyword arguments in reversed / rotated order, through functools.partial, and partly positional; separations of type numpy.float64 (function route) and 0-d numpy arrays (factory route)"
+RULE += "; polynomial orders 0..14; -1 / -2 parameter pairs; number spellings (25e-1, +1.5, .5, 5.); five spellings of as.NAME( inside formulas (blank before the bracket, upper case, bracket on a continuation line); a fifth route: as.NAME in [Pair] of a file that also defines the user's own form with the bare name NAME; integer-typed separations; the potential functions called with keyword arguments in reversed / rotated order, through functools.partial, and partly positional; zbl pairs that share the product or the sum of their atomic numbers; separations of type numpy.float64 (function route) and 0-d numpy arrays (factory route)"
 ASSUMPTIONS = [
     'documented closed forms from docs/reference/potential_forms.rst; constants of coul (epsilon_0 = 0.0055264), zbl and Tang-Toennies (0.5292 bohr, 27.211 eV) as in DESIGN 2.3',
     'tolerance 1e-12 x (sum of the absolute values of the terms of the formula): absorbs legitimate re-association, not a changed constant, exponent or binding',
@@ -54,7 +54,7 @@ def lattice(tier):
     P['polynomial'] = polys
     P['sqrt'] = [(g,) for g in (-3.0, 0, 0.5, 40.0, 2.25, -1, -2)]
     P['tang_toennies'] = list(itertools.product([41.96, 0, -3.0], [2.523, 1.2], [1.461, 0], [14.11, 0], [183.6, 0]))
-    z = [1, 8, 14, 92, 7.5]
+    z = [1, 2, 4, 8, 16, 14, 92, 7.5, 3, 6, 9]     # different pairs with one product ((2, 8) / (4, 4) / (1, 16), (3, 6) / (2, 9)), evaluated one after another in one process
     P['zbl'] = list(itertools.product(z, z))
     P['zero'] = [()]
     P['buck4'] = [(1388.773, 0.3623, 175.0, 1.2, 2.1, 2.6), (1000.0, 0.3, 30.0, 1, 2, 3), (500.0, 0.45, 60.0, 0.9, 1.5, 3.1), (2000.0, 0.25, 12.0, 1.5, 1.9, 2.2), (1388.773, 0.3623, 0, 1.2, 2.1, 2.6), (900.0, 0.3, 0.0, 1.0, 1.5, 2.5)]
